@@ -94,6 +94,15 @@ Definition run_tm (op : Z) (a : args) : args :=
               do sp <- tm_to_space_packet_pack u;
               do p <- tm_pack u;
               Ok [sp; fst p; [tm_packet_len u]])
+  (* decode (613: PusTm.unpack, 614: Service17Tm.unpack) from a buffer that may continue behind the packet, then every
+     observable of the decoded object: fields incl. crc16 and packet_len, pack(recalc_crc=False), pack(), == with the
+     telemetry decoded from exactly the packet's own octets (both directions), the fields again *)
+  | 613 | 614 => ret (fun x => x)
+             (do u <- tm_unpack (lst 0 a) (int 1 0 a);
+              do p1 <- tm_pack_norecalc u;
+              do p2 <- tm_pack (snd p1);
+              do w <- tm_unpack (slice_to (lst 0 a) (tm_packet_len u)) (int 1 0 a);
+              Ok (tm_fields u ++ [fst p1; fst p2; [b2z (tm_eqb u w); b2z (tm_eqb w u)]] ++ tm_fields (snd p2)))
   | 620 => ret (fun r => r)
              (do t <- tmx_make (lst 0 a) (lst 1 a) (lst 2 a);
               let '(_, outs) := tmx_run t t (map tmx_op_of (skipn 3 a) ++ tmx_closing) in
